@@ -87,3 +87,21 @@ Proof.
   - do 6 eexists. split; [reflexivity|]. left. reflexivity.
 Qed.
 Print Assumptions C07_rooted_dom_inhabited.
+
+(** removeRoot = true when a root branch IS a selected inner branch: the result has no two branches
+    with the same bipartition, [usplits] lists one split per branch (nothing is merged), and the
+    branches are exactly the staying ones with their data *)
+Theorem C07_rooted_removeRoot_usplits :
+  forall s n cm e1 c1 e2 c2,
+  wf (UNode n cm [Some (e1, c1); Some (e2, c2)]) = true ->
+  no_single (UNode n cm [Some (e1, c1); Some (e2, c2)]) = true ->
+  NoDup (leaves (UNode n cm [Some (e1, c1); Some (e2, c2)])) ->
+  is_tip c1 = false \/ is_tip c2 = false ->
+  stays s (e1, c1) = false \/ stays s (e2, c2) = false ->
+  let t := UNode n cm [Some (e1, c1); Some (e2, c2)] in
+  let g := remove_edges true false (fun _ e c => s e c) t in
+  usplits g = map (csplit (tipset t)) (branches g) /\
+  Proofs.CollapseSplits.veq (map Proofs.CollapseSplits.view (branches g))
+                            (map Proofs.CollapseSplits.view (filter (stays s) (branches t))).
+Proof. exact rooted_rr_usplits. Qed.
+Print Assumptions C07_rooted_removeRoot_usplits.
